@@ -36,8 +36,10 @@ META = {
             'exactly the one rule documented for its method and path; replacing one documented rule by @ / ! changes '
             'exactly the operations documented under it; nothing but pure request accessors runs before the check; no '
             'token => 401 except /.  Tied to the code by the exhaustive matrix routes x caller classes x single-rule '
-            'overrides on the real application with SQL-statement, dump and response monitors, and by comparing every '
-            'cell with the verdict the Lean model computes.',
+            'overrides on the real application with SQL-statement, dump and response monitors, by comparing every '
+            'cell with the verdict the Lean model computes, and by editing the policy file of the RUNNING service (its decisions must '
+            'equal those of a service started with the file as it then reads).  The source of a request\'s roles in NoAuthMiddleware is '
+            'generated and tied to the model (an X-Roles header that is present and empty means no roles).',
     'level_note': 'trusted: Lean kernel, the n!"..." name encoding done at elaboration time, the Python translator, '
                   'oslo.policy / oslo.context / webob as exercised; keystonemiddleware token validation is not '
                   'exercised (auth_strategy=noauth2).',
